@@ -503,7 +503,7 @@ void StatementBuilder::iteration_begin(const char* name)
     /* The iterator cannot be modified.
      */
     if (!type.is(CONSTANT)) {
-        type = type.create_prefix(CONSTANT);
+        type = type.create_prefix(CONSTANT, position);
     }
 
     /* The iteration statement has a local scope for the iterator.
